@@ -22,6 +22,7 @@ HARNESS = {
     "shim_many1": dict(kind="shim", proved=False, fns=["nom::multi::many1"], bound="input <= 4 bytes, cheap element parser (u8 elements)"),
     "shim_many0": dict(kind="shim", proved=False, fns=["nom::multi::many0"], bound="input <= 4 bytes, cheap element parser (u8 elements)"),
     "shim_opt_cond": dict(kind="shim", proved=False, fns=["nom::combinator::opt", "nom::combinator::cond", "nom::combinator::map"], bound="input <= 3 bytes, cheap element parser"),
+    "shim_pair": dict(kind="shim", proved=False, fns=["nom::sequence::pair"], bound="input <= 4 bytes, cheap element parser (all result classes, non-consuming success included)"),
     "shim_map_parser": dict(kind="shim", proved=False, fns=["nom::combinator::map_parser"], bound="input <= 5 bytes, count usize full domain, cheap inner parser"),
 }
 def _leaf(name, fns, bound, kind="leaf", proved=False):
@@ -222,11 +223,13 @@ PROPS = {
         explanation="see level_text",
     ),
     "C13": dict(
-        level="model_checking",
-        level_text="Kani contract harnesses on the compiled derive-generated parsers (ServerDHParams, ECParameters both forms, ServerECDHParams, ECPoint, both DigitallySigned forms, parse_content_and_signature for both flag values) against index-based reference decoders: exact field values by pointer identity, exact consumption, all 256 curve types, all algorithm bytes; complete in byte contents, BOUNDED in input length (8..10 bytes; larger length fields land in the Incomplete class).",
-        level_note="Bounded model checking, not proof: the parsers are generated by nom-derive macros and cannot be sliced into Verus. Trusted: reference decoders in /verif/kani/pub_c13_kx.rs written from RFC 4492/5246.",
-        technique="contract harnesses (pre/post predicates) on the real code, Kani/CBMC, bounded length",
-        kani=[dict(quick=["leaf_dh_params", "leaf_digitally_signed", "leaf_ec_parameters", "leaf_ecdh_params", "leaf_content_and_signature"], timeout=900)],
+        level="proof",
+        level_text="Unbounded (Verus, unit derived, on the nom-derive GENERATED parser bodies taken from the macro-expanded crate source on every run, rule R13): ServerDHParams (three u16-prefixed fields), ECPoint, ECCurve, ExplicitPrimeContent (six u8-prefixed fields in RFC 4492 order), ECParametersContent under its selector (1 explicit prime, 3 named curve, every other curve type rejected with ErrorKind::Switch before a byte is read), ECParameters, ServerECDHParams, the hand-written entry points parse_dh_params / parse_ec_parameters / parse_ecdh_params, both DigitallySigned forms and parse_content_and_signature (for EVERY content parser value `fun` and both flag values: fun's error unchanged, else fun's value followed by the RFC 5246 signature iff ext, the length-only form iff !ext) are proved against the wire layout for every input length: the value fields are exactly the bytes at the offsets an encoder wrote them, the remainder is exactly the bytes after the encoding, every truncation is Incomplete. Kani contract harnesses on the COMPILED derive-generated parsers (bounded input length, complete in byte contents) cross-check the same layout on the binary and supply replayable counterexamples.",
+        level_note="Proof relative to: the nom shim contracts length_data / be_u8 / be_u16 / make_error / map / pair (Kani shim_* harnesses on the real nom, bounded); nom-derive's integer Parse impls are nom's big-endian readers (asserted against the bytes by the Kani leaves); the macro expansion printed by rustc -Zunpretty=expanded is the code rustc compiles; rules R13 (parse_be lifted from the expansion, paths shortened, `T::parse` checked to be the generated delegation) and R14 (applied closure beta-reduced), R9 for the one closure of parse_digitally_signed_old. Machine integers are machine integers.",
+        technique="contract-based deductive verification: Verus on the mechanically extracted macro-expanded parser bodies (unbounded) + Kani contract harnesses on the compiled code (bounded length)",
+        verus=["derived"],
+        paired={"derived": ["leaf_dh_params", "leaf_digitally_signed", "leaf_ec_parameters", "leaf_ecdh_params", "leaf_content_and_signature"]},
+        kani=[dict(quick=["leaf_dh_params", "leaf_digitally_signed", "leaf_ec_parameters", "leaf_ecdh_params", "leaf_content_and_signature", "shim_pair", "shim_length_data", "shim_be"], timeout=900)],
         explanation="see level_text",
     ),
     "C14": dict(
